@@ -416,6 +416,11 @@ def run(tier, seed, replay=None):
                     xreqs.append({"op": "charsearch", "gs": gs, "cur": t["cur"]["value"], "excl": t["cur"]["exclusive"], "fwd": mm.group(2) == "Forward",
                                   "before": mm.group(3) == "Before", "ch": parse_char(mm.group(4)), "count": int(mm.group(1)), "has_verb": t["verb"] is not None})
                     xmeta.append((c, t, "charsearch", None))
+                mm = re.search(r"motion=Some\(MotionCmd\((\d+), TextObj\(Paragraph\((Forward|Backward)\)\)\)\) flags=", t["cmd"])
+                if mm:
+                    xreqs.append({"op": "paragraph", "gs": gs, "cur": t["cur"]["value"], "excl": t["cur"]["exclusive"], "fwd": mm.group(2) == "Forward",
+                                  "count": int(mm.group(1)), "has_verb": t["verb"] is not None})
+                    xmeta.append((c, t, "paragraph", None))
                 mm = re.search(r"motion=Some\(MotionCmd\((\d+), TextObj\(Word\((Normal|Big), (Inside|Around)\)\)\)\) flags=", t["cmd"])
                 if mm:
                     xreqs.append({"op": "textobj_word", "cls": [4 if g == "\n" else cls(g) for g in gs], "cur": t["cur"]["value"], "big": mm.group(2) == "Big", "around": mm.group(3) == "Around"})
